@@ -487,7 +487,7 @@ struct Shared {
 /// counted and skipped so the campaign continues.
 pub fn run_prop<T, S, M, F>(report: &Report, name: &str, rule: &str, mk_strat: M, cases: u64, f: F) -> bool
 where
-    T: Debug + Serialize + Clone,
+    T: Debug + Serialize + Clone + Send,
     S: Strategy<Value = T>,
     M: Fn() -> S + Sync,
     F: Fn(&T) -> CaseOut + Sync,
@@ -495,6 +495,12 @@ where
     if !report.wants(name) {
         return true;
     }
+    // Watchdog: a case that does not return within QV_WATCHDOG_SECS of wall time (default 300; cases
+    // normally take milliseconds) is reported as a hang with exit code 2 (not as a violation: wall
+    // time is never a correctness signal), after saving the scenario for diagnosis.
+    let watchdog_secs: u64 = std::env::var("QV_WATCHDOG_SECS").ok().and_then(|s| s.parse().ok()).unwrap_or(300);
+    let running: Vec<Mutex<Option<(Instant, T)>>> = (0..report.opts.threads.max(1)).map(|_| Mutex::new(None)).collect();
+    let workers_left = AtomicU64::new(report.opts.threads.max(1) as u64);
     let started = Instant::now();
     let threads = report.opts.threads.max(1);
     let per = cases.div_ceil(threads as u64).max(1);
@@ -511,11 +517,38 @@ where
     let failure: Mutex<Option<Failure>> = Mutex::new(None);
 
     std::thread::scope(|scope| {
+        {
+            let running = &running;
+            let workers_left = &workers_left;
+            scope.spawn(move || {
+                while workers_left.load(Ordering::Relaxed) > 0 {
+                    std::thread::sleep(std::time::Duration::from_millis(250));
+                    for slot in running.iter() {
+                        let g = slot.lock().unwrap();
+                        if let Some((t0, v)) = &*g {
+                            if t0.elapsed().as_secs() >= watchdog_secs {
+                                let scenario = serde_json::to_value(v).unwrap_or(Value::Null);
+                                let h = hash64(&scenario.to_string());
+                                let dir = std::path::PathBuf::from(verif_root()).join("replays");
+                                let _ = std::fs::create_dir_all(&dir);
+                                let path = dir.join(format!("{}-{}-hang-{:012x}.json", report.opts.prop, name, h & 0xffff_ffff_ffff));
+                                let f = Failure { property: report.opts.prop.clone(), check: name.to_string(), sig: "hang/watchdog".into(), msg: format!("case did not return within {watchdog_secs} s of wall time"), scenario };
+                                let _ = std::fs::write(&path, serde_json::to_string_pretty(&f).unwrap_or_default());
+                                println!("HANG property={} check={} replay={} (a generated case did not return within {} s; inconclusive, exit 2)", report.opts.prop, name, path.display(), watchdog_secs);
+                                std::process::exit(2);
+                            }
+                        }
+                    }
+                }
+            });
+        }
         for w in 0..threads {
             let mk_strat = &mk_strat;
             let sh = &sh;
             let f = &f;
             let failure = &failure;
+            let running = &running;
+            let workers_left = &workers_left;
             let seed = report.opts.seed;
             std::thread::Builder::new()
                 .stack_size(64 << 20)
@@ -545,10 +578,12 @@ where
                         if sh.stop.load(Ordering::Relaxed) && !failed_once.get() {
                             return Ok(());
                         }
+                        *running[w].lock().unwrap() = Some((Instant::now(), v.clone()));
                         let out = match catch(|| f(&v)) {
                             Ok(o) => o,
                             Err(p) => panic_to_case(p, false),
                         };
+                        *running[w].lock().unwrap() = None;
                         let counting = !failed_once.get();
                         match &out.verdict {
                             Verdict::Fail { sig, msg } => {
@@ -655,6 +690,7 @@ where
                             }
                         }
                     }
+                    workers_left.fetch_sub(1, Ordering::Relaxed);
                 })
                 .expect("spawn worker");
         }
